@@ -3,6 +3,8 @@
 From BW Require Import Context.
 From BWGen Require Import ExtTable.
 From BWP Require Import TextFacts Suffix_proofs Context_proofs Diff_proofs.
+From BW Require Import Main.
+From BWP Require Import Main_proofs.
 
 (* Every file that contributes blocks is in scope: scanned (exists, matches a positional glob, not ignored) or named in the diff and not ignored. *)
 Theorem C15_context_files_in_scope : forall ext_map fs scan changes fc,
@@ -53,3 +55,49 @@ Theorem C15_strip_once : forall s h p,
   target_path {| pf_source := s; pf_target := T "b/" ++ p; pf_hunks := h |} = p.
 Proof. exact target_path_strips_once. Qed.
 Print Assumptions C15_strip_once.
+
+(* main.rs: files are scanned iff a positional glob is given or the run is interactive; the glob set is replaced by ** iff interactive without globs; the diff is read iff not interactive; a run only starts inside a repository and with well-formed globs. *)
+Theorem C15_mode_matrix : forall a p, plan_of a = Ok p ->
+  pl_scan p = (negb (ca_nglobs a =? 0) || ca_terminal a) /\
+  pl_star p = ((ca_nglobs a =? 0) && ca_terminal a) /\
+  pl_diff p = (if ca_terminal a then None else Some (ca_stdin a)) /\
+  ca_root a = true /\ ca_globs_ok a = true.
+Proof. exact plan_modes. Qed.
+Print Assumptions C15_mode_matrix.
+
+(* With a diff on stdin and no glob nothing is scanned. *)
+Theorem C15_diff_only : forall a p, plan_of a = Ok p -> ca_terminal a = false -> ca_nglobs a = 0 ->
+  pl_scan p = false /\ pl_diff p = Some (ca_stdin a).
+Proof. exact diff_only_mode. Qed.
+Print Assumptions C15_diff_only.
+
+(* Interactive without globs: every walked, non-ignored file is scanned. *)
+Theorem C15_interactive_scans_everything : forall p fs tb cd f, pl_star p = true -> In f fs ->
+  rf_exists f = true -> rf_ignore f = false ->
+  exists f', In f' (rc_files (rcase_of p fs tb cd)) /\ rf_path f' = rf_path f /\ rf_text f' = rf_text f /\ scanned f' = true.
+Proof. exact star_scans_every_file. Qed.
+Print Assumptions C15_interactive_scans_everything.
+
+(* Through main: a listed file matches none of the --ignore globs main gets to see. *)
+Theorem C15_listed_not_ignored : forall a ms tb cd cr fc,
+  main_model a ms tb cd = MList cr -> In fc (cr_ctx cr) ->
+  exists m, In m ms /\ fc_path fc = rf_path (mf_file m) /\
+            (if ca_ign_post a =? 0 then mf_ign_pre m else mf_ign_post m) = false.
+Proof. exact listed_file_not_effectively_ignored. Qed.
+Print Assumptions C15_listed_not_ignored.
+
+(* --ignore wins over globs and diff paths - provided the --ignore flags are not typed on both sides of the list subcommand. *)
+Theorem C15_ignore_wins_unless_split : forall a ms tb cd cr fc,
+  main_model a ms tb cd = MList cr -> In fc (cr_ctx cr) ->
+  (ca_ign_post a = 0 -> forall m, In m ms -> mf_ign_post m = false) ->
+  (ca_ign_post a <> 0 -> forall m, In m ms -> mf_ign_pre m = true -> mf_ign_post m = true) ->
+  exists m, In m ms /\ fc_path fc = rf_path (mf_file m) /\ mf_ign_pre m || mf_ign_post m = false.
+Proof. exact ignore_wins_unless_split. Qed.
+Print Assumptions C15_ignore_wins_unless_split.
+
+(* Known finding F12: typed on both sides, the earlier globs are dropped and a file matching one of them is listed (witness replayed on the real binary by the check). *)
+Theorem C15_ignore_wins_refuted :
+  exists cr fc, main_model f12_args [f12_file] (mktables [] [] [] [] []) [] = MList cr /\
+                In fc (cr_ctx cr) /\ fc_path fc = T "a.py" /\ mf_ign_pre f12_file = true.
+Proof. exact ignore_wins_refuted. Qed.
+Print Assumptions C15_ignore_wins_refuted.
